@@ -289,6 +289,46 @@ func p2psimRun(r *Run) {
 	defer g.shutdown()
 	synctest.Wait()
 
+	// ---------------- thorough tier, admission part: the total limit (125 peers) - 27 further hosts open five
+	// connections each, one at a time; then a few leave and the freed capacity must be usable again
+	if focus == "C18" && r.Tier == "thorough" && t.Chance(1, 8, "flood") {
+		r.Probe("flood")
+		var extra []*simNode
+		for hst := 0; hst < 27; hst++ {
+			n := &simNode{idx: len(g.nodes), ip: net.IPv4(byte(60+hst), 7, 7, byte(1+hst)), cap: g.capAll, tree: g.tree, silentAt: -1, closeAt: -1, forbidAt: -1,
+				nonce: uint64(50000 + 100*hst), announce: "inv", role: "honest", best: g.honest.best}
+			g.nodes = append(g.nodes, n)
+			extra = append(extra, n)
+		}
+		for k := 0; k < 5; k++ {
+			for _, n := range extra {
+				r.Step++
+				c := g.connect(n)
+				c.nodeEnd.Deliver(0)
+				g.afterDeliver(c)
+				g.settle()
+			}
+		}
+		for i := 0; i < 6; i++ {
+			n := extra[t.Draw(len(extra), "flood-leave")]
+			for _, c := range n.conns {
+				if !c.closed && !c.dead {
+					r.Step++
+					_ = c.nodeEnd.Close()
+					c.closed = true
+					g.settle()
+					break
+				}
+			}
+		}
+		for i := 0; i < 8; i++ {
+			r.Step++
+			c := g.connect(extra[t.Draw(len(extra), "flood-again")])
+			c.nodeEnd.Deliver(0)
+			g.afterDeliver(c)
+			g.settle()
+		}
+	}
 	// ---------------- fault phase: one external event per step
 	nSteps := t.Range(10, 80, "fault-steps")
 	if r.Tier == "thorough" {
